@@ -29,6 +29,8 @@ pub struct Session {
     pub columns: u32,
     pub lines: u32,
     pub bytes: bool,
+    /// only the listener events are recorded (no screen)
+    pub events_only: bool,
     pub id: String,
     pub ops: Vec<Op>,
 }
@@ -102,7 +104,12 @@ impl Session {
             "new {} {} {} {}\n",
             self.columns,
             self.lines,
-            if self.bytes { "b" } else { "c" },
+            match (self.bytes, self.events_only) {
+                (true, false) => "b",
+                (false, false) => "c",
+                (true, true) => "be",
+                (false, true) => "ce",
+            },
             self.id
         );
         for o in &self.ops {
@@ -132,7 +139,8 @@ impl Session {
                 cur = Some(Session {
                     columns: t[0].parse().map_err(|_| "bad cols")?,
                     lines: t[1].parse().map_err(|_| "bad lines")?,
-                    bytes: t[2] == "b",
+                    bytes: t[2].starts_with('b'),
+                    events_only: t[2].ends_with('e'),
                     id: t.get(3).unwrap_or(&"-").to_string(),
                     ops: vec![],
                 });
@@ -286,16 +294,28 @@ pub fn run_session(s: &Session) -> Vec<String> {
         "N {} {} {} {}",
         s.columns,
         s.lines,
-        if s.bytes { "b" } else { "c" },
+        match (s.bytes, s.events_only) {
+            (true, false) => "b",
+            (false, false) => "c",
+            (true, true) => "be",
+            (false, true) => "ce",
+        },
         s.id
     )];
     let r = catch_unwind(AssertUnwindSafe(|| {
         let mut r = Runner::new(s.columns, s.lines, s.bytes);
+        if s.events_only {
+            lock(&r.tap).events_only = true;
+        }
         for op in &s.ops {
             r.step(op);
             if r.dead() {
                 break;
             }
+        }
+        if s.events_only {
+            let mut t = lock(&r.tap);
+            return std::mem::take(&mut t.out);
         }
         // final state (so that the last post-state is always present)
         let mut t = lock(&r.tap);
